@@ -86,7 +86,7 @@ impl ip_hdr {
     }
 
     pub fn add_tot_len(&mut self, more: u16) -> &mut Self {
-        self.set_tot_len(self.get_tot_len() + more)
+        self.set_tot_len(self.get_tot_len().wrapping_add(more))
     }
 
     pub fn set_id(&mut self, id: u16) -> &mut Self {
@@ -337,7 +337,7 @@ impl udp_hdr {
     }
 
     pub fn add_len(&mut self, more: u16) -> &mut Self {
-        self.set_len(self.get_len() + more)
+        self.set_len(self.get_len().wrapping_add(more))
     }
 
     pub fn set_csum(&mut self, csum: u16) -> &mut Self {
@@ -449,11 +449,11 @@ pub fn ip_csum_partial(buf: &[u8]) -> u32 {
         tmp.copy_from_slice(chunk);
 
         let val = u16::from_be_bytes(tmp);
-        sum += val as u32;
+        sum = sum.wrapping_add(val as u32);
     }
 
     if !remainder.is_empty() {
-        sum += (remainder[0] as u32) << 8;
+        sum = sum.wrapping_add((remainder[0] as u32) << 8);
     }
 
     sum
